@@ -182,9 +182,17 @@ def tlc(module, cfg=None, workers=8, timeout=1800, simulate=None, depth=None, se
 
 
 def sany_all():
+    """parse every specification module with SANY; modules that EXTEND a data module generated at run time
+    (spec/_gen_*.tla, written by the checks from the current tree) are skipped while that module is absent"""
     bad = []
+    present = set(f[:-4] for f in os.listdir(SPEC) if f.endswith(".tla"))
     for f in sorted(os.listdir(SPEC)):
         if f.endswith(".tla"):
+            text = open(os.path.join(SPEC, f), encoding="utf-8").read()
+            m = re.search(r"^EXTENDS(.*?)$", text, re.M)
+            deps = [d.strip() for d in m.group(1).split(",")] if m else []
+            if any(d.startswith("_gen_") and d not in present for d in deps):
+                continue
             p = subprocess.run(["tla-sany", f], cwd=SPEC, stdout=subprocess.PIPE, stderr=subprocess.STDOUT, text=True)
             if p.returncode != 0 or "Semantic errors" in p.stdout or "***Parse Error***" in p.stdout or "Fatal" in p.stdout:
                 bad.append((f, p.stdout[-1500:]))
